@@ -147,6 +147,9 @@ structure SNode where
   /-- the mapped calls this node forks over (outermost first) with their index sets
   (`CallGraphStage.Forks` + the statically known size of each) -/
   forks : List (String × List Idx) := []
+  /-- the run-time controls that disable the node (`CallGraphStage.Disable`): its own and those of
+  the pipelines around it -/
+  disable : List RExp := []
 deriving Inhabited
 
 /-! ### map calls over statically sized collections -/
@@ -233,7 +236,7 @@ def staticCallable (P : Program) (nm : List String → String) :
   | fuel+1, callee, path, ins =>
     match P.callables.lookup callee with
     | none => (⟨.lit .null, badTy⟩, [])
-    | some (.stage _ _) => (⟨.ref (nm path) ⟨callee, 0, 0⟩ [], ⟨callee, 0, 0⟩⟩, [⟨path, callee, ins, []⟩])
+    | some (.stage _ _) => (⟨.ref (nm path) ⟨callee, 0, 0⟩ [], ⟨callee, 0, 0⟩⟩, [⟨path, callee, ins, [], []⟩])
     | some (.pipeline _ outs calls ret) =>
       let r := staticCalls P.table P.insOf (staticCallable P nm fuel) path ins calls [] []
       (⟨.struct (outs.map fun p =>
